@@ -581,6 +581,9 @@ func (ex *Exec) readGlobal(st *State, o types.Object) *Val {
 			st.assume(lt(t, ex.D.konst("$alloc@0", SInt)))
 		}
 	}
+	if _, isMap := o.Type().Underlying().(*types.Map); isMap && st.specDef == nil {
+		ex.roMapFacts(st, o, t)
+	}
 	// package-level error sentinels and similar are non-nil
 	if isRefLike(o.Type()) {
 		if types.Identical(o.Type(), tErr) && (strings.HasPrefix(o.Name(), "Err") || strings.HasPrefix(o.Name(), "err") || o.Name() == "EOF") {
@@ -999,9 +1002,15 @@ func (ex *Exec) index(st *State, e *ast.IndexExpr) *Val {
 		return &Val{T: tByte, Term: ex.strAt(x.Term, i.Term)}
 	case *types.Map:
 		i = ex.coerce(st, i, u.Key())
-		mh := ex.heap(st, "Map$"+smtName(ex.sortOf(u.Key()))+"$"+smtName(ex.sortOf(u.Elem())), arrSort(SInt, arrSort(ex.sortOf(u.Key()), ex.sortOf(u.Elem()))))
+		_, _, mh, _ := ex.mapHeaps(st, u)
 		v := &Val{T: u.Elem(), Term: sel(sel(mh, x.Term), i.Term)}
-		ex.wf(st, v)
+		if !ex.inSpec() {
+			ex.wf(st, v)
+		}
+		if z := ex.zero(u.Elem()); z.Term != nil && z.Term.S == v.Term.S {
+			// an absent key reads as the zero value
+			v = &Val{T: u.Elem(), Term: ite(ex.mapHas(st, u, x.Term, i.Term), v.Term, z.Term)}
+		}
 		return v
 	}
 	ex.unsupported(e.Pos(), "index on "+xt.String())
@@ -1163,20 +1172,19 @@ func (ex *Exec) compositeLit(st *State, e *ast.CompositeLit, addr bool) *Val {
 		return &Val{T: t, Term: arr}
 	case *types.Map:
 		ref := ex.newRef(st)
-		ks, es := ex.sortOf(u.Key()), ex.sortOf(u.Elem())
-		hn := "Map$" + smtName(ks) + "$" + smtName(es)
-		mh := ex.heap(st, hn, arrSort(SInt, arrSort(ks, es)))
-		inner := sel(mh, ref)
+		ex.mapInitEmpty(st, u, ref)
 		for _, el := range e.Elts {
 			if kv, ok := el.(*ast.KeyValueExpr); ok {
 				k := ex.coerce(st, ex.expr(st, kv.Key), u.Key())
 				v := ex.coerce(st, ex.expr(st, kv.Value), u.Elem())
+				if k.Term != nil && v.Term == nil {
+					v = &Val{T: u.Elem(), Term: ex.funcRef(st, v)}
+				}
 				if k.Term != nil && v.Term != nil {
-					inner = store(inner, k.Term, v.Term)
+					ex.mapStore(st, u, ref, k.Term, v.Term)
 				}
 			}
 		}
-		st.heaps[hn] = store(mh, ref, inner)
 		return &Val{T: t, Term: ref}
 	}
 	ex.unsupported(e.Pos(), "composite literal of "+t.String())
